@@ -46,7 +46,7 @@ MESH_RANGES = [(r"mesh.*\]\[0\]$", -1.0, 1.0)]
 def surf_of(cfg, **kw):
     c = {k: v for k, v in cfg.items() if k in ("nx", "ny", "symmetry", "side", "model", "groundplane", "S_ref_type",
                                                "with_viscous", "with_wave", "struct_weight_relief",
-                                               "distributed_fuel_weight", "n_point_masses", "fem_origin", "yshift")}
+                                               "distributed_fuel_weight", "n_point_masses", "fem_origin", "yshift", "ref_axis_pos")}
     if not c.get("symmetry", True):
         c.pop("side", None)
         if c.get("ny", 3) % 2 == 0:
@@ -179,7 +179,7 @@ MULTI = [dict(nx=2, ny=3, symmetry=True, side="left", nsurf=1),
          dict(nx=3, ny=3, symmetry=True, side="right", nsurf=1, _tier=T),
          dict(nx=2, ny=4, symmetry=True, side="left", nsurf=1, _tier=T)]
 MULTI_GP = MULTI + [dict(nx=2, ny=3, symmetry=True, side="left", nsurf=1, groundplane=True),
-                    dict(nx=2, ny=3, symmetry=True, side="right", nsurf=2, groundplane=True, _tier=T)]
+                    dict(nx=2, ny=3, symmetry=True, side="right", nsurf=2, groundplane=True)]
 
 AREA = [dict(S_ref_type="wetted"), dict(S_ref_type="projected")]
 
